@@ -4,7 +4,7 @@
    history is then a list of (options of the issuing instance, operation).  Coherence does not
    depend on whose options wrote an entry: the invariant of Proofs.v is preserved by a step under
    ANY configuration, so it holds after any interleaving of any number of instances. *)
-From Coq Require Import List ZArith Bool NArith.
+From Coq Require Import List ZArith Bool NArith Arith Lia.
 From GZ Require Import C06.Model C06.Proofs.
 Import ListNotations.
 Open Scope Z_scope.
@@ -43,6 +43,35 @@ Qed.
 (* the instances share the nodes: same key -> node map, same Redis type *)
 Definition same_nodes (c c' : config) : Prop := cnodes c = cnodes c' /\ ccluster c = ccluster c'.
 
+Definition reads_claim (c : config) (s : state) : Prop :=
+  (forall p o, take_like o p -> dirty s (KP p) = false ->
+     db (fst (step c s o)) = db s /\
+     (forall p' u v, oret (snd (step c s o)) = RRow p' u v -> p' = p /\ db_get p (db s) = Some (u, v)) /\
+     (oret (snd (step c s o)) = RNf -> db_get p (db s) = None)) /\
+  (forall p, dirty s (KP p) = false ->
+     forall p' u v, oret (snd (step c s (OGet p))) = RRow p' u v -> p' = p /\ db_get p (db s) = Some (u, v)) /\
+  (forall u o, qri_like o u -> dirty s (KU u) = false ->
+     (forall e p, lookup (clock s) (cache s) (KU u) = Some e -> eval e = CPk p -> dirty s (KP p) = false) ->
+     db (fst (step c s o)) = db s /\
+     (forall p u' v, oret (snd (step c s o)) = RRow p u' v -> u' = u /\ db_get p (db s) = Some (u, v)) /\
+     (oret (snd (step c s o)) = RNf -> forall p v, db_get p (db s) <> Some (u, v))).
+
+Lemma coherent_reads_cops_lemma rows cops c :
+  NoDup (map fst rows) -> all_disciplinedm (init rows) cops = true ->
+  reads_claim c (finalm (init rows) cops).
+Proof.
+  intros ND D. set (s := finalm (init rows) cops).
+  destruct (finalm_coh cops (init rows) ND (init_coh rows) D) as [W H]. fold s in W, H.
+  split; [|split].
+  - intros p o [[t ->]|[t [n ->]]] Hd; cbn [step].
+    + split; [apply take_primary_db|]. apply take_primary_sound; auto.
+    + split; [apply take_mid_db|]. apply take_mid_sound; auto.
+  - intros p Hd. cbn. apply get_primary_sound; auto.
+  - intros u o [[t ->]|[t [n ->]]] Hd Hp; cbn [step].
+    + split; [apply query_index_db|]. apply query_index_sound; auto.
+    + split; [apply query_index_mid_db|]. apply query_index_mid_sound; auto.
+Qed.
+
 Lemma coherent_reads_instances_lemma rows cops c :
   NoDup (map fst rows) -> all_disciplinedm (init rows) cops = true ->
   Forall (fun co => same_nodes c (fst co)) cops ->
@@ -58,15 +87,101 @@ Lemma coherent_reads_instances_lemma rows cops c :
      db (fst (step c s o)) = db s /\
      (forall p u' v, oret (snd (step c s o)) = RRow p u' v -> u' = u /\ db_get p (db s) = Some (u, v)) /\
      (oret (snd (step c s o)) = RNf -> forall p v, db_get p (db s) <> Some (u, v))).
+Proof. intros ND D _. exact (coherent_reads_cops_lemma rows cops c ND D). Qed.
+
+(* ------------------------------------------------------------------ independent worlds *)
+(* Several WORLDS - each its own database and its own Redis servers, hence its own [state] -
+   live in one process and share go-zero's process-wide machinery: one cleaner (a tick is a tick
+   for every world's pending retries), one clock.  The retry of a failed invalidation is bound
+   to the store it failed on ([pending] is part of the world's state, asyncRetryDelCache closes
+   over the node's redis), whatever the key strings are: so the composite system is the PRODUCT
+   of the worlds' models.  A history is a list of world operations and process-wide events. *)
+Inductive wop :=
+| WOp (w : nat) (c : config) (o : op)     (* an operation issued in world w by an instance with options c *)
+| WClean (n : N)                          (* n ticks of the one cleaner *)
+| WAdv (ms : Z).                          (* time passes *)
+
+Definition cfg0 : config := mkCfg 0 0 [] false.
+
+Fixpoint upd {A} (l : list A) (i : nat) (f : A -> A) : list A :=
+  match l, i with
+  | [], _ => []
+  | x :: l', O => f x :: l'
+  | x :: l', S i' => x :: upd l' i' f
+  end.
+
+Definition wstep (ws : list state) (x : wop) : list state :=
+  match x with
+  | WOp w c o => upd ws w (fun s => fst (step c s o))
+  | WClean n => map (fun s => fst (step cfg0 s (OClean n))) ws
+  | WAdv ms => map (fun s => fst (step cfg0 s (OAdv ms))) ws
+  end.
+
+Definition wfinal (ws : list state) (h : list wop) : list state := fold_left wstep h ws.
+
+(* world j's own history: its operations and the process-wide events, in order *)
+Fixpoint wproj (j : nat) (h : list wop) : list (config * op) :=
+  match h with
+  | [] => []
+  | WOp w c o :: h' => if Nat.eqb w j then (c, o) :: wproj j h' else wproj j h'
+  | WClean n :: h' => (cfg0, OClean n) :: wproj j h'
+  | WAdv ms :: h' => (cfg0, OAdv ms) :: wproj j h'
+  end.
+
+Lemma nth_upd_same {A} (l : list A) i f d : (i < length l)%nat -> nth i (upd l i f) d = f (nth i l d).
 Proof.
-  intros ND D _ s.
-  destruct (finalm_coh cops (init rows) ND (init_coh rows) D) as [W H]. fold s in W, H.
-  split; [|split].
-  - intros p o [[t ->]|[t [n ->]]] Hd; cbn [step].
-    + split; [apply take_primary_db|]. apply take_primary_sound; auto.
-    + split; [apply take_mid_db|]. apply take_mid_sound; auto.
-  - intros p Hd. cbn. apply get_primary_sound; auto.
-  - intros u o [[t ->]|[t [n ->]]] Hd Hp; cbn [step].
-    + split; [apply query_index_db|]. apply query_index_sound; auto.
-    + split; [apply query_index_mid_db|]. apply query_index_mid_sound; auto.
+  revert i. induction l as [|x l IH]; intros [|i] H; cbn in *; try (exfalso; lia); auto.
+  apply IH. lia.
+Qed.
+
+Lemma nth_upd_other {A} (l : list A) i j f d : i <> j -> nth j (upd l i f) d = nth j l d.
+Proof.
+  revert i j. induction l as [|x l IH]; intros [|i] [|j] H; cbn; auto; try congruence.
+Qed.
+
+Lemma length_upd {A} (l : list A) i f : length (upd l i f) = length l.
+Proof. revert i. induction l as [|x l IH]; intros [|i]; cbn; auto. Qed.
+
+Lemma length_wstep ws x : length (wstep ws x) = length ws.
+Proof. destruct x; cbn; [apply length_upd | apply map_length | apply map_length]. Qed.
+
+Lemma nth_map_in {A B} (f : A -> B) (l : list A) j d d' : (j < length l)%nat -> nth j (map f l) d' = f (nth j l d).
+Proof.
+  revert j. induction l as [|x l IH]; intros [|j] H; cbn in *; try (exfalso; lia); auto. apply IH. lia.
+Qed.
+
+(* frame: an operation in world w leaves every other world exactly as it was *)
+Lemma wstep_frame ws w c o j d : w <> j -> nth j (wstep ws (WOp w c o)) d = nth j ws d.
+Proof. intro H. cbn. apply nth_upd_other. exact H. Qed.
+
+(* the composite system is the product: world j of the final state is the state its own model
+   reaches on its own history, whatever the other worlds did in between - same key strings,
+   overlapping outages, pending retries included *)
+Lemma worlds_independent_lemma : forall h ws j d, (j < length ws)%nat ->
+  nth j (wfinal ws h) d = finalm (nth j ws d) (wproj j h).
+Proof.
+  induction h as [|x h IH]; intros ws j d Hj; [reflexivity|].
+  unfold wfinal in *. cbn [fold_left]. rewrite IH by (rewrite length_wstep; exact Hj).
+  destruct x as [w c o|n|ms]; cbn [wproj].
+  - destruct (Nat.eqb w j) eqn:E.
+    + apply PeanoNat.Nat.eqb_eq in E. subst w. cbn [wstep finalm]. rewrite nth_upd_same by exact Hj. reflexivity.
+    + apply PeanoNat.Nat.eqb_neq in E. rewrite wstep_frame by exact E. reflexivity.
+  - cbn [wstep finalm]. rewrite (nth_map_in _ ws j d d Hj). reflexivity.
+  - cbn [wstep finalm]. rewrite (nth_map_in _ ws j d d Hj). reflexivity.
+Qed.
+
+(* hence every world keeps C06's guarantee on its own: coherent reads after any composite history *)
+Lemma coherent_reads_worlds_lemma : forall rowss h j rows c d,
+  nth_error rowss j = Some rows -> NoDup (map fst rows) ->
+  all_disciplinedm (init rows) (wproj j h) = true ->
+  reads_claim c (nth j (wfinal (map init rowss) h) d).
+Proof.
+  intros rowss h j rows c d Hn ND D.
+  assert (Hj : (j < length (map init rowss))%nat).
+  { rewrite map_length. apply nth_error_Some. intro E0. pose proof (eq_trans (eq_sym Hn) E0) as X. discriminate X. }
+  rewrite (worlds_independent_lemma h (map init rowss) j d Hj).
+  assert (E : nth j (map init rowss) d = init rows).
+  { rewrite (nth_map_in init rowss j rows d) by (rewrite map_length in Hj; exact Hj).
+    f_equal. apply nth_error_nth. exact Hn. }
+  rewrite E. apply coherent_reads_cops_lemma; assumption.
 Qed.
